@@ -34,7 +34,7 @@ def gen_cond(tape, bases, for_symbol):
     if for_symbol == QUOTE:
         isym = tape.choice([QUOTE] + bases)
     else:
-        isym = tape.choice([for_symbol, QUOTE])
+        isym = tape.choice([for_symbol, QUOTE])      # both reachable through a direct (or inverse) pair
     return dict(
         interest_symbol=isym,
         interest_percentage=str(D(tape.int(0, 3000)) / 100),
@@ -70,7 +70,7 @@ def gen_op(tape, prop, npairs, lend, bias):
     elif kind == "cancel":
         op.update(which=tape.weighted([(6, "open"), (2, "closed"), (1, "unknown")]), k=tape.draw(50))
     elif kind == "loan":
-        op.update(sym=tape.draw(4), amt_kind=tape.weighted([(5, "small"), (3, "mid"), (2, "huge"), (1, "zero"),
+        op.update(sym=tape.draw(5), amt_kind=tape.weighted([(5, "small"), (3, "mid"), (2, "huge"), (1, "zero"),
                                                             (1, "neg"), (2, "boundary")]),
                   amt=tape.draw(1000))
     elif kind == "repay":
@@ -94,6 +94,15 @@ def build(tape, prop, tier):
         prec = {QUOTE: qp}
         for b in bases:
             prec[b] = tape.choice([3, 0, 1, 2, 4, 8, 6])
+    # optional inverse pair QUOTE/ZZZ: ZZZ reaches the margin quote symbol only through 1/price
+    p_inv = {"C10": 0.35, "C11": 0.2, "C01": 0.12, "C02": 0.12, "C07": 0.1}.get(prop, 0.05)
+    if tape.chance(p_inv):
+        s["inv"] = dict(quote="ZZZ")
+        prec["ZZZ"] = tape.choice([2, 0, 3, 4])
+    else:
+        s["inv"] = None
+    ntot = npairs + (1 if s["inv"] else 0)
+    all_syms = [QUOTE] + bases + (["ZZZ"] if s["inv"] else [])
     s["prec"] = prec
     fee_kind = tape.choice(["none", "pct", "pctmin"]) if prop != "C09" else tape.choice(["pct", "pctmin", "none", "pctmin"])
     pct = tape.choice([D("0.25"), D("0.1"), D(1), D("0.333"), D(5), D("0.075"), D("12.5"), D(0), D("99.999")])
@@ -121,9 +130,9 @@ def build(tape, prop, tier):
     if lend:
         has_default = tape.chance(0.8)
         conds = {}
-        for sym in [QUOTE] + bases:
+        for sym in all_syms:
             if tape.chance(0.4) or not has_default and tape.chance(0.6):
-                conds[sym] = gen_cond(tape, bases, sym)
+                conds[sym] = gen_cond(tape, bases + (["ZZZ"] if s["inv"] else []), sym)
         default = gen_cond(tape, bases, None) if has_default else None
         if default is not None:
             default["interest_symbol"] = tape.choice(["same", QUOTE])
@@ -140,6 +149,8 @@ def build(tape, prop, tier):
         for b in bases:
             if tape.chance(0.45):
                 init[b] = str(D(tape.int(0, 50000)).scaleb(-3).quantize(D(1).scaleb(-prec[b])))
+        if s["inv"] and tape.chance(0.6):
+            init["ZZZ"] = str(D(tape.int(0, 5000000)).scaleb(-2).quantize(D(1).scaleb(-prec["ZZZ"])))
     # balances with more decimals than the symbol precision are legal input (C01/C02 do not exclude them)
     s["offgrid_init"] = prop in ("C01", "C02") and bool(init) and tape.chance(0.12)
     if s["offgrid_init"]:
@@ -156,7 +167,7 @@ def build(tape, prop, tier):
     ts_mode = tape.choice(["shared", "distinct", "mixed"])
     s["ts_mode"] = ts_mode
     bars = []
-    for pi in range(npairs):
+    for pi in range(ntot):
         px = tape.int(500, 50000)        # in quote-grid units? no: in 0.01 steps; snapped later
         rows = []
         k = 0
@@ -165,7 +176,7 @@ def build(tape, prop, tier):
             if ts_mode == "shared":
                 k = j
             elif ts_mode == "distinct":
-                k = j * npairs + pi
+                k = j * ntot + pi
             else:
                 k = (k + 1 + tape.draw(3)) if j else tape.draw(2)
             # OHLC by ranks: choose four levels around px, then assign
@@ -190,22 +201,22 @@ def build(tape, prop, tier):
     bias = BIAS.get(prop, BIAS["default"])
     nosusp = prop == "C03"
     scripts = {}
-    for pi in range(npairs):
+    for pi in range(ntot):
         for bi in range(len(bars[pi])):
             p_act = 0.5 if not long_run else 0.3
             if tape.chance(p_act):
                 n = 1 + tape.draw(3)
-                scripts[f"bar:{pi}:{bi}"] = [gen_op(tape, prop, npairs, bool(s["lend"]), bias) for _ in range(n)]
+                scripts[f"bar:{pi}:{bi}"] = [gen_op(tape, prop, ntot, bool(s["lend"]), bias) for _ in range(n)]
     # order-event handler acts on every n-th order event
     s["oe_every"] = tape.choice([0, 3, 5, 2])
-    s["oe_ops"] = [gen_op(tape, prop, npairs, bool(s["lend"]), bias) for _ in range(tape.draw(4))]
+    s["oe_ops"] = [gen_op(tape, prop, ntot, bool(s["lend"]), bias) for _ in range(tape.draw(4))]
     # trading signal source: bar handler of pair 0 emits a signal every n bars, signal handler acts
     s["sig_every"] = tape.choice([0, 0, 4, 2])
-    s["sig_ops"] = [gen_op(tape, prop, npairs, bool(s["lend"]), bias) for _ in range(tape.draw(3))]
+    s["sig_ops"] = [gen_op(tape, prop, ntot, bool(s["lend"]), bias) for _ in range(tape.draw(3))]
     # scheduled jobs
     njobs = tape.draw(4)
-    s["jobs"] = [dict(at=tape.draw(max(2, nb * (npairs if ts_mode == "distinct" else 1)) + 3),
-                      ops=[gen_op(tape, prop, npairs, bool(s["lend"]), bias) for _ in range(1 + tape.draw(2))])
+    s["jobs"] = [dict(at=tape.draw(max(2, nb * (ntot if ts_mode == "distinct" else 1)) + 3),
+                      ops=[gen_op(tape, prop, ntot, bool(s["lend"]), bias) for _ in range(1 + tape.draw(2))])
                  for _ in range(njobs)]
     s["scripts"] = scripts
     s["nosusp"] = nosusp
@@ -214,6 +225,9 @@ def build(tape, prop, tier):
     s["motif"] = None
     if prop in ("C07", "C11", "C01", "C02", "C06", "C05") and tape.chance(0.22):
         s["motif"] = tape.choice(["twoloan", "arwindow"])
+        apply_motif(s, tape)
+    elif prop == "C11" and tape.chance(0.04):
+        s["motif"] = "arveto"
         apply_motif(s, tape)
     return s
 
@@ -229,6 +243,37 @@ def apply_motif(s, tape):
     qp = s["prec"][QUOTE]
     cond = dict(interest_symbol=QUOTE, interest_percentage="0", interest_period=86400, min_interest="0",
                 margin_requirement="0")
+    if s["motif"] == "arveto":
+        # two loans in the base symbol, the older one with a lot of accrued interest, a third loan elsewhere, and an
+        # auto-repay buy that is partially filled and then cancelled while the account's equity is just above what the
+        # margin rule asks for: both repayments are affordable
+        b0 = s["bases"][0]
+        s["prec"][b0] = 2
+        s["prec"][QUOTE] = 2
+        s["fee"] = dict(kind="none", pct="0", min="0")
+        s["liq"] = dict(kind="vs", limit="25", impact="0")
+        c_b = dict(cond, interest_symbol="same", interest_percentage="9.52", interest_period=60, margin_requirement="0.5")
+        c_q = dict(cond, margin_requirement="0.5")
+        s["lend"] = dict(default=c_b, per_symbol={QUOTE: c_q}, refuse_after=None)
+        s["reuse_lender"] = False
+        s["offgrid_loans"] = False
+        s["offgrid_init"] = False
+        s["inv"] = None
+        s["prec"].pop("ZZZ", None)
+        s["bars"] = s["bars"][:len(s["bases"])]
+        s["init"] = {b0: str(D(190) + D("37.5") + D(tape.int(0, 100) - 40)), QUOTE: "100.00"}
+        s["ts_mode"] = "shared"
+        s["bars"][0] = [dict(k=j, o=10000, h=10000, l=10000, c=10000, v="2.0") for j in range(76)]
+        s["jobs"] = []
+        s["oe_every"] = 0
+        s["sig_every"] = 0
+        s["scripts"] = {k: v for k, v in s["scripts"].items() if not k.startswith("bar:0:")}
+        s["scripts"]["bar:0:0"] = [dict(kind="loan", yields=0, sleep=0, sym=1, amt_kind="abs", amt=0, abs="17.50", symname=b0),
+                                   dict(kind="loan", yields=0, sleep=0, sym=0, amt_kind="abs", amt=0, abs="18.70", symname=QUOTE)]
+        s["scripts"]["bar:0:69"] = [dict(kind="loan", yields=0, sleep=0, sym=1, amt_kind="abs", amt=0, abs="20.00", symname=b0)]
+        s["scripts"]["bar:0:70"] = [order_op(otype="limit", side="buy", amt_kind="abs", abs="2.00", abs_lim="101.00", ar=True)]
+        s["scripts"]["bar:0:72"] = [dict(kind="cancel", yields=0, sleep=0, which="open", k=0)]
+        return
     if s["motif"] == "twoloan":
         # an auto-borrow sell whose minimum fee exceeds its proceeds is short in base AND quote: two loans; the lender
         # refuses the second one (an Error that is not NotEnoughBalance) after the first was granted
